@@ -59,6 +59,13 @@ def cases(tier, rng):
     for c in (["tcp", "ws", "kcp"] if thorough else ["tcp"]):
         line = "c14 %s %d refused" % (c, n)
         cs.append({"line": line, "key": line, "model": False, "tags": {"carrier": c, "n": n, "mode": "refused"}})
+    # physical sessions one after the other, each lost abruptly while idle (the carrier cut under both ends): sockets and goroutines of the
+    # lost sessions are given back on every carrier that runs through the cutting relay
+    # (an end that sees an orderly end-of-stream - plain TCP - leaves the session to the multiplexer's keep-alive: the scenario then waits
+    # up to 75 s (the keep-alive's second 30 s tick) for the footprint to come back; the websocket carrier reports an error and gives everything back at once: quick tier)
+    for c in (["tcp", "ws", "tcp-starttls", "wss", "tcp+tls"] if thorough else ["ws"]):
+        line = "c14 %s %d sessions-cut" % (c, n)
+        cs.append({"line": line, "key": line, "model": False, "tags": {"carrier": c, "n": n, "mode": "sessions-cut"}})
     for c in (["tcp", "tcp-starttls"] if thorough else ["tcp"]):      # (the carriers whose physical connection runs through the cutting relay)
         for mode in ("cut-open", "garbage-open"):
             line = "c14 %s %d %s" % (c, n, mode)
